@@ -1,7 +1,7 @@
 """C06 - request line: accepted language and reported method/path/version (product with the reference grammar)."""
 from .jobs import *
 REQUIRED_WITNESSES = ['C', 'P', 'E:Token', 'E:Version', 'E:NewLine']
-BOUNDS = {'quick': 'every request buffer of 0..=8 bytes; split templates with 1..=5 (method, target) / 1..=8 (version and beyond) symbolic bytes; long 7-bit targets (SP excluded) 1..=24 bytes; multi-space option symbolic throughout',
+BOUNDS = {'quick': 'every request buffer of 0..=8 bytes; split templates with 1..=5 (method, target) / 1..=8 (version and beyond) symbolic bytes; long 7-bit targets (SP excluded) 1..=24 bytes; multi-space option symbolic throughout; long runs (7, 8, 9, 16, 17, 33 bytes) of leading empty lines, method bytes and delimiter spaces with a 2-byte symbolic window at the start, middle and end of the run, a complete message behind',
           'thorough': 'every request buffer of 0..=11 bytes; split templates to 7 / 11 symbolic bytes; long 7-bit targets (SP excluded) to 64'}
 OUTSIDE = 'longer request lines; non-ASCII bytes in targets longer than the split templates (UTF-8 forks per byte); SIMD back ends (C12/C13)'
 ASSUMPTIONS = ['reference model /verif/refmodel transcribes the request-line grammar of the property text']
@@ -17,4 +17,5 @@ def jobs(tier, seed):
                              fixed={i: NOCTL for i in range(L)}), T(tier, 60, 300), f'"X " + {L} symbolic target bytes (any 7-bit value but SP) + " HTTP/1.1" CRLFCRLF',
                              family='target-ascii', mandatory=(L <= 10)))
     J += sliding_families(P, G, tier, step=T(tier, 2, 1), pool=('req-post', 'req-lf'), max_off=26)
+    J += longrun_families(P, G, tier, ('lead-empty', 'method', 'req-sp1', 'req-sp2'))
     return J
